@@ -5,10 +5,15 @@
 (* triggered, updateFlapping, updateExpired; documentation in               *)
 (* pipeline/alert.go).                                                       *)
 (*                                                                           *)
-(* Two machines run in lockstep on the same input, for ONE alert ID:         *)
+(* Two machines run in lockstep on the same input, for ONE alert ID (the     *)
+(* other IDs of the node appear only as the environment action Other):       *)
 (*   Impl  - the algorithm as the code runs it: history ring + index,        *)
 (*           changed / expired / flapping flags, firstTriggered /            *)
-(*           lastTriggered, the stream and the batch emission tests.         *)
+(*           lastTriggered, the stream emission test (action Point) and the  *)
+(*           batch emission test (action Batch), the per-group copies of     *)
+(*           the reset expressions (a stateful reset "count() >= k"), and    *)
+(*           the two deliveries of an event: to the anonymous topic of the   *)
+(*           inline handlers and to the named topic.                         *)
 (*   Ref   - what the property and the documentation promise: the level      *)
 (*           rule, "event iff not OK or just recovered", the                 *)
 (*           state-changes-only / interval and no-recoveries filters, and    *)
@@ -16,8 +21,10 @@
 (*           is given the observed output and says whether the documented    *)
 (*           machine allows it (RefJudge).  Without flapping exactly one     *)
 (*           output is allowed; with flapping() the documentation does not   *)
-(*           fix the weighting, so suppression of an event is allowed        *)
-(*           whenever the recorded history contains a state change.          *)
+(*           fix the weighting, so suppression of a NON-OK event is allowed  *)
+(*           whenever the recorded history contains a state change.  A       *)
+(*           return to OK is always due: a withheld recovery is never made   *)
+(*           up for (the following OK points are unchanged and silent).      *)
 (*                                                                           *)
 (* Time.  `clock` is the time of the last processed point (stream) or the    *)
 (* last batch's tmax.  All remembered timestamps are kept as AGES relative   *)
@@ -33,24 +40,34 @@ CONSTANTS
     MaxBDt,     \* batch: gap between the previous tmax and the first point 0..MaxBDt
     BatchGaps,  \* batch: time between consecutive points of a batch, and from the last point to tmax
     MaxBatch,   \* batch: 1..MaxBatch points
-    RestoreKeepsEpisodeStart,
-                \* TRUE: a restored alertState starts its episode at (last event time - last event
-                \* duration), i.e. where the ID left OK.  FALSE: at the last event's time (the code
-                \* before the second C01 fix) - durations restart from the last event after a restart.
-    LeaveOKStartsDuration
-                \* TRUE: Impl as the code is since fix c143191 (addEvent records the start of
-                \* the episode when the level leaves OK).  FALSE: Impl as it was before (only
-                \* triggered() set firstTriggered) - kept so that a run can show the
-                \* EventCarries counterexample, i.e. that the invariant is not vacuous.
+    QCap,       \* capacity of the inline handlers' event queue (anonymous topic)
+    Variant     \* {} = Impl as the code is.  Named deviations, each kept so that a run can show
+                \* the counterexample of the invariant it breaks (the invariant is not vacuous):
+                \*  "first-triggered-only-when-triggered"  code before fix c143191: only triggered()
+                \*        set firstTriggered (stale start after a flapping-suppressed entry)
+                \*  "restore-from-event-time"  code before fix 06befa5: a restored alertState starts
+                \*        its episode at the last event's time instead of time - duration
+                \*  "batch-uses-stream-trigger"  the batch form shares the stream's emission test
+                \*        (a recovery during flapping is withheld in batch form too)
+                \*  "shared-reset-state"  the reset expressions are evaluated on the node's shared
+                \*        copy: their state is shared by all alert IDs of the node
+                \*  "stop-at-first-collect-error"  an error collecting for the anonymous topic
+                \*        keeps the event from the named topic
+
+Is(v) == v \in Variant
+RestoreKeepsEpisodeStart == ~Is("restore-from-event-time")
+LeaveOKStartsDuration == ~Is("first-triggered-only-when-triggered")
 
 VARIABLES
     cfg,        \* the configuration (chosen in Init, constant afterwards)
     im,         \* Impl state of the ID (mirrors alertState)
     rf,         \* Ref state of the ID
     out,        \* output of the last step: None or <<level, eage, duration>>
-    chk         \* verdict of RefJudge on the last step
+    chk,        \* verdict of RefJudge on the last step
+    aq,         \* backlog of the inline handlers' queue (events collected, not yet handled)
+    dl          \* deliveries of the last step's event: [anon, named]
 
-vars == <<cfg, im, rf, out, chk>>
+vars == <<cfg, im, rf, out, chk, aq, dl>>
 
 None   == <<>>
 NoTime == -1    \* Go's zero time.Time: "never set"
@@ -59,64 +76,107 @@ SatDur == -1    \* a duration measured from the zero time (saturates in Go)
 SetMax(S) == CHOOSE x \in S : \A y \in S : y <= x
 SetMin(S) == CHOOSE x \in S : \A y \in S : x <= y
 Range(s)  == { s[i] : i \in DOMAIN s }
+Min2(a, b) == IF a < b THEN a ELSE b
 
 CapAge(x)  == IF x > MaxAge THEN MaxAge ELSE x
 Adv(a, d)  == IF a = NoTime THEN NoTime ELSE CapAge(a + d)
 
 (***************************************************************************)
 (* Configuration.  has[l] / rst[l]: level l (1 INFO, 2 WARNING, 3 CRITICAL)  *)
-(* has a condition / a reset condition.  sco: stateChangesOnly, scod its     *)
-(* interval (0 = none).  flo/fhi: flapping thresholds in percent.            *)
+(* has a condition / a reset condition.  rk[l] > 0: the reset condition of   *)
+(* level l is the STATEFUL lambda "count() >= rk[l]" (count() counts the     *)
+(* evaluations of that expression); rk[l] = 0: it is a stateless predicate   *)
+(* of the point.  sco: stateChangesOnly, scod its interval (0 = none).       *)
+(* flo/fhi: flapping thresholds in percent.  inline: the node has inline     *)
+(* handlers (anonymous topic) besides its named topic.                       *)
 (***************************************************************************)
 MkCfg(has, rst, sco, scod, norec, all, flap, flo, fhi, H, batch) ==
     [has |-> has, rst |-> rst, sco |-> sco, scod |-> scod, norec |-> norec, all |-> all,
-     flap |-> flap, flo |-> flo, fhi |-> fhi, H |-> H, batch |-> batch]
+     flap |-> flap, flo |-> flo, fhi |-> fhi, H |-> H, batch |-> batch,
+     rk |-> <<0, 0, 0>>, inline |-> FALSE]
+WithRK(c, rk) == [c EXCEPT !.rk = rk]
+WithInline(c) == [c EXCEPT !.inline = TRUE]
 
 HasReset(c, l) == l > 0 /\ c.has[l] /\ c.rst[l]
+Stateful(c, l) == HasReset(c, l) /\ c.rk[l] > 0
+AnyStateful(c) == \E l \in 1..3 : Stateful(c, l)
+
+(* Stateful resets are explored where every step at a non-OK level emits an *)
+(* event (then the judge can follow the observed level where the documented *)
+(* evaluation policy leaves the count open): stream, no filters.             *)
+ConfigOK(c) ==
+    /\ \A l \in 1..3 : (c.rst[l] => c.has[l]) /\ (c.rk[l] > 0 => c.rst[l])
+    /\ AnyStateful(c) => (~c.batch /\ ~c.sco /\ ~c.norec /\ ~c.flap)
+    /\ c.all => c.batch
 
 (* A point class: truth of the three level lambdas and the three reset     *)
-(* lambdas on that point.  Only lambdas that exist in the configuration      *)
-(* vary (the others are never evaluated).                                    *)
+(* lambdas on that point.  Only stateless lambdas that exist in the          *)
+(* configuration vary (the others are never evaluated / do not read the      *)
+(* point).                                                                   *)
 Classes(c) ==
     { [c |-> cc, r |-> rr] :
         cc \in { x \in [1..3 -> BOOLEAN] : \A l \in 1..3 : ~c.has[l] => ~x[l] },
-        rr \in { x \in [1..3 -> BOOLEAN] : \A l \in 1..3 : ~HasReset(c, l) => ~x[l] } }
+        rr \in { x \in [1..3 -> BOOLEAN] : \A l \in 1..3 : (~HasReset(c, l) \/ Stateful(c, l)) => ~x[l] } }
 
+ZeroCnt == [l \in 1..3 |-> 0]
 (***************************************************************************)
 (* The level rule.                                                           *)
 (***************************************************************************)
-(* Documented: highest satisfied level at or above the current one; else    *)
-(* stay if the current level's reset condition is configured and false;     *)
-(* else the highest satisfied level below; else OK.                          *)
+Sat(c, p)      == { l \in 1..3 : c.has[l] /\ p.c[l] }
+Up(c, cur, p)  == { l \in Sat(c, p) : l >= cur }
+Lower(c, cur, p) == LET d == { l \in Sat(c, p) : l < cur } IN IF d = {} THEN 0 ELSE SetMax(d)
+(* the reset condition of the current level is consulted: nothing at or     *)
+(* above the current level is satisfied and the level has a reset condition  *)
+Gate(c, cur, p) == Up(c, cur, p) = {} /\ HasReset(c, cur)
+
+(* Documented, stateless resets: highest satisfied level at or above the    *)
+(* current one; else stay if the current level's reset condition is          *)
+(* configured and false; else the highest satisfied level below; else OK.    *)
 DocLevel(c, cur, p) ==
-    LET sat  == { l \in 1..3 : c.has[l] /\ p.c[l] }
-        up   == { l \in sat : l >= cur }
-        down == { l \in sat : l < cur }
-    IN  IF up # {} THEN SetMax(up)
-        ELSE IF HasReset(c, cur) /\ ~p.r[cur] THEN cur
-        ELSE IF down # {} THEN SetMax(down)
-        ELSE 0
+    IF Up(c, cur, p) # {} THEN SetMax(Up(c, cur, p))
+    ELSE IF HasReset(c, cur) /\ ~p.r[cur] THEN cur
+    ELSE Lower(c, cur, p)
+
+(* Documented, with a stateful reset: the SET of admissible levels.  "Each  *)
+(* expression maintains its own state ... For each point an expression may   *)
+(* or may not be evaluated": the count of the ID's own reset expression is   *)
+(* at least the number of times it had to be consulted (lo) and at most the  *)
+(* number of the ID's own points (hi) - never anything of another ID.        *)
+DocLevelSet(c, cur, p, lo, hi) ==
+    IF Up(c, cur, p) # {} THEN { SetMax(Up(c, cur, p)) }
+    ELSE IF ~HasReset(c, cur) THEN { Lower(c, cur, p) }
+    ELSE LET mayHold == IF Stateful(c, cur) THEN lo[cur] + 1 < c.rk[cur] ELSE ~p.r[cur]
+             mayPass == IF Stateful(c, cur) THEN hi[cur] + 1 >= c.rk[cur] ELSE p.r[cur]
+         IN  (IF mayHold THEN {cur} ELSE {}) \cup (IF mayPass THEN { Lower(c, cur, p) } ELSE {})
 
 (* As coded: findFirstMatchLevel(start, stop) scans start, start-1, ...,    *)
 (* stop+1 with stop clamped to OK; determineLevel = upward search over       *)
-(* Critical..current, reset gate, downward search from current.              *)
+(* Critical..current, reset gate, downward search from current.  cnt is the  *)
+(* state of the reset expressions this alertState evaluates (count()).       *)
 FindFirst(c, start, stop, p) ==
     LET s == IF stop < 0 THEN 0 ELSE stop
         m == { l \in (s + 1)..start : c.has[l] /\ p.c[l] }
     IN  IF m = {} THEN <<0, FALSE>> ELSE <<SetMax(m), TRUE>>
 
-CodeLevel(c, cur, p) ==
+CodeLevelS(c, cur, p, cnt) ==
     LET a == FindFirst(c, 3, cur - 1, p)
-    IN  IF a[2] THEN a[1]
-        ELSE IF HasReset(c, cur) /\ ~p.r[cur] THEN cur
-        ELSE LET b == FindFirst(c, cur, 0, p) IN IF b[2] THEN b[1] ELSE 0
+        b == FindFirst(c, cur, 0, p)
+        down == IF b[2] THEN b[1] ELSE 0
+    IN  IF a[2] THEN <<a[1], cnt>>
+        ELSE IF ~HasReset(c, cur) THEN <<down, cnt>>
+        ELSE LET n    == cnt[cur] + 1
+                 pass == IF Stateful(c, cur) THEN n >= c.rk[cur] ELSE p.r[cur]
+                 cnt2 == IF Stateful(c, cur) THEN [cnt EXCEPT ![cur] = Min2(n, c.rk[cur])] ELSE cnt
+             IN  IF pass THEN <<down, cnt2>> ELSE <<cur, cnt2>>
+
+CodeLevel(c, cur, p) == CodeLevelS(c, cur, p, ZeroCnt)[1]
 
 (***************************************************************************)
 (* Impl: alertState.                                                         *)
 (***************************************************************************)
 ImplInit(c) ==
     [hist |-> [i \in 1..c.H |-> 0], idx |-> 1, changed |-> FALSE, expired |-> FALSE,
-     flapping |-> FALSE, first |-> NoTime, last |-> NoTime]
+     flapping |-> FALSE, first |-> NoTime, last |-> NoTime, rcnt |-> ZeroCnt]
 
 ImplLevel(s) == s.hist[s.idx]
 
@@ -139,10 +199,17 @@ UpdateFlapping(c, hist, idx, was) ==
              ELSE IF ~was /\ P > c.fhi * q THEN TRUE
              ELSE was
 
+(* The two emission tests.  supp = held back by flapping or by              *)
+(* stateChangesOnly (unchanged and interval not elapsed).                    *)
+(* alertState.Point: everything is held back while suppressed.               *)
+StreamTrigger(lv, changed, supp) == ~supp /\ (lv # 0 \/ changed)
+(* alertState.BufferedBatch: a recovery is sent unconditionally, a non-OK    *)
+(* event unless suppressed.                                                  *)
+BatchTrigger(lv, changed, supp)  == (changed /\ lv = 0) \/ (lv # 0 /\ ~supp)
+
 (* One evaluated level lv at event time t, with d1 = t - clock and           *)
-(* d2 = clock' - t: addEvent; emission test (stream or batch form);          *)
-(* triggered; duration.                                                      *)
-ImplEvent(c, s, lv, d1, d2) ==
+(* d2 = clock' - t: addEvent; emission test; triggered; duration.            *)
+ImplEvent(c, s, lv, d1, d2, batchForm, cnt2) ==
     LET first1  == Adv(s.first, d1)
         last1   == Adv(s.last, d1)
         changed == s.hist[s.idx] # lv
@@ -151,12 +218,12 @@ ImplEvent(c, s, lv, d1, d2) ==
         flap2   == UpdateFlapping(c, hist2, idx2, s.flapping)
         expired == ~changed /\ c.scod # 0 /\ (last1 = NoTime \/ last1 >= c.scod)
         supp    == (c.flap /\ flap2) \/ (c.sco /\ ~changed /\ ~expired)
-        trig    == IF c.batch
-                   THEN (changed /\ lv = 0) \/ (lv # 0 /\ ~supp)
-                   ELSE ~supp /\ (lv # 0 \/ changed)
+        trig    == IF batchForm /\ ~Is("batch-uses-stream-trigger")
+                   THEN BatchTrigger(lv, changed, supp)
+                   ELSE StreamTrigger(lv, changed, supp)
         \* addEvent(t): leaving OK starts the duration, whether or not the event is triggered
-        \* (before the fix recorded in KNOWN_FINDINGS.txt only triggered() set firstTriggered, so
-        \* an entry into non-OK suppressed by flapping left a stale / zero start time behind)
+        \* (before fix c143191 only triggered() set firstTriggered, so an entry into non-OK
+        \* suppressed by flapping left a stale / zero start time behind)
         firstA  == IF LeaveOKStartsDuration /\ s.hist[s.idx] = 0 /\ lv # 0 THEN 0 ELSE first1
         \* triggered(t): firstTriggered is (re)set if the previous history entry is OK
         first2  == IF trig /\ hist2[PrevIdx(c.H, idx2)] = 0 THEN 0 ELSE firstA
@@ -164,7 +231,7 @@ ImplEvent(c, s, lv, d1, d2) ==
         emit    == trig /\ ~(c.norec /\ lv = 0)
         dur     == IF first2 = NoTime THEN SatDur ELSE first2
     IN  [st  |-> [hist |-> hist2, idx |-> idx2, changed |-> changed, expired |-> expired,
-                  flapping |-> flap2, first |-> Adv(first2, d2), last |-> Adv(last2, d2)],
+                  flapping |-> flap2, first |-> Adv(first2, d2), last |-> Adv(last2, d2), rcnt |-> cnt2],
          out |-> IF emit THEN <<lv, d2, dur>> ELSE None]
 
 (* Task restart while the daemon keeps running (restoreEventState): the new   *)
@@ -173,30 +240,35 @@ ImplEvent(c, s, lv, d1, d2) ==
 (* triggered(event time); the start of the episode is the event's time       *)
 (* minus its duration.  Modelled where the topic's memory is the true state: *)
 (* no flapping and recoveries delivered (then the last delivered level is    *)
-(* the current level and lastTriggered is the last event's time).            *)
-CanRestart(c) == ~c.flap /\ ~c.norec
+(* the current level and lastTriggered is the last event's time), and no     *)
+(* stateful reset (a new alertState gets fresh expression copies).           *)
+CanRestart(c) == ~c.flap /\ ~c.norec /\ ~AnyStateful(c)
 ImplRestore(c, s) ==
     LET cur == ImplLevel(s)
     IN  IF cur = 0 THEN ImplInit(c)
         ELSE [hist |-> [i \in 1..c.H |-> IF i = 2 THEN cur ELSE 0], idx |-> 2, changed |-> TRUE,
               expired |-> FALSE, flapping |-> FALSE,
               first |-> IF RestoreKeepsEpisodeStart THEN s.first ELSE s.last,
-              last |-> s.last]
+              last |-> s.last, rcnt |-> ZeroCnt]
 
 (* A batch is a non-empty sequence of [c, r, off] (off = time - clock,      *)
 (* non-decreasing) and tmx = tmax - clock.  A stream point is the batch      *)
 (* <<p>> with tmx = p.off.                                                   *)
-ImplStream(c, s, p) == ImplEvent(c, s, CodeLevel(c, ImplLevel(s), p), p.off, 0)
+ImplStream(c, s, p) ==
+    LET lc == CodeLevelS(c, ImplLevel(s), p, s.rcnt)
+    IN  ImplEvent(c, s, lc[1], p.off, 0, FALSE, lc[2])
 
+(* BufferedBatch: every point's level against the level at batch start      *)
+(* (stateful resets are not explored in batch form: ConfigOK).               *)
 ImplBatch(c, s, pts, tmx) ==
     LET cur   == ImplLevel(s)
-        plv   == [i \in DOMAIN pts |-> CodeLevel(c, cur, pts[i])]
+        plv   == [i \in DOMAIN pts |-> CodeLevelS(c, cur, pts[i], s.rcnt)[1]]
         hi    == SetMax(Range(plv))
         lo    == SetMin(Range(plv))
         hiIdx == SetMin({ i \in DOMAIN pts : plv[i] = hi })   \* first point at the highest level
         lv    == IF c.all THEN lo ELSE hi
         toff  == IF c.all \/ lv = 0 THEN tmx ELSE pts[hiIdx].off
-    IN  ImplEvent(c, s, lv, toff, tmx - toff)
+    IN  ImplEvent(c, s, lv, toff, tmx - toff, TRUE, s.rcnt)
 
 (***************************************************************************)
 (* Ref: the documented machine as a judge of an observed output.             *)
@@ -209,37 +281,48 @@ ImplBatch(c, s, pts, tmx) ==
 (*   lastOld/lastNew  oldest / newest possible age of "the last alert" (they *)
 (*            differ only after a withheld recovery that flapping may or     *)
 (*            may not have suppressed)                                       *)
+(*   rlo/rhi  bounds of count() of the ID's own stateful reset expressions   *)
 (***************************************************************************)
 RefInit(c) ==
-    [lvl |-> 0, win |-> [i \in 1..c.H |-> 0], left |-> {NoTime}, lastOld |-> NoTime, lastNew |-> NoTime]
+    [lvl |-> 0, win |-> [i \in 1..c.H |-> 0], left |-> {NoTime}, lastOld |-> NoTime, lastNew |-> NoTime,
+     rlo |-> ZeroCnt, rhi |-> ZeroCnt]
 
 RefJudge(c, r, pts, tmx, obs) ==
-    LET plv      == [i \in DOMAIN pts |-> DocLevel(c, r.lvl, pts[i])]
-        useAll   == c.batch /\ c.all
-        lv       == IF useAll THEN SetMin(Range(plv)) ELSE SetMax(Range(plv))
+    LET useAll   == c.batch /\ c.all
+        \* admissible levels of every point (singletons unless a stateful reset is consulted)
+        S        == [i \in DOMAIN pts |-> DocLevelSet(c, r.lvl, pts[i], r.rlo, r.rhi)]
+        Agg(f)   == IF useAll THEN SetMin(Range(f)) ELSE SetMax(Range(f))
+        lvs      == IF \A i \in DOMAIN pts : Cardinality(S[i]) = 1
+                    THEN { Agg([i \in DOMAIN pts |-> CHOOSE x \in S[i] : TRUE]) }
+                    ELSE { Agg(f) : f \in { g \in [DOMAIN pts -> 0..3] : \A i \in DOMAIN pts : g[i] \in S[i] } }
+        \* where the count leaves the level open the judge follows the observed level
+        lv       == IF obs # None /\ obs[1] \in lvs THEN obs[1] ELSE SetMax(lvs)
         changed  == lv # r.lvl
         win2     == [i \in 1..c.H |-> IF i < c.H THEN r.win[i + 1] ELSE lv]
         steady   == \A i \in 1..c.H : win2[i] = lv
         \* admissible event times: a point that has the event's level; the batch time
         \* as well for all() and for OK events (no single triggering point)
-        trigOffs == { pts[i].off : i \in { j \in DOMAIN pts : plv[j] = lv } }
+        trigOffs == { pts[i].off : i \in { j \in DOMAIN pts : lv \in S[j] } }
         cands    == IF lv # 0 /\ ~useAll THEN trigOffs ELSE trigOffs \cup {tmx}
         \* not OK, or just returned to OK
         base     == lv # 0 \/ changed
         withheld == c.norec /\ lv = 0
+        recovery == changed /\ lv = 0 /\ ~withheld
         elMay(e)  == r.lastOld = NoTime \/ Adv(r.lastOld, e) >= c.scod
         elMust(e) == r.lastNew = NoTime \/ Adv(r.lastNew, e) >= c.scod
         mayEmit(e)  == base /\ ~withheld /\ (~c.sco \/ changed \/ (c.scod > 0 /\ elMay(e)))
+        \* flapping may hold back a non-OK event while the recorded history contains a state
+        \* change; a return to OK is always due
         mustEmit(e) == base /\ ~withheld /\ (~c.sco \/ changed \/ (c.scod > 0 /\ elMust(e)))
-                       /\ (~c.flap \/ steady)
+                       /\ (~c.flap \/ steady \/ recovery)
         leaving  == r.lvl = 0 /\ lv # 0
         \* event time used when nothing was observed: the code's choice
-        defOff   == IF useAll \/ lv = 0 THEN tmx ELSE SetMin(trigOffs)
+        defOff   == IF useAll \/ lv = 0 \/ trigOffs = {} THEN tmx ELSE SetMin(trigOffs)
         e        == IF obs = None THEN defOff ELSE tmx - obs[2]
         DurOf(a) == IF a = NoTime THEN SatDur ELSE a
         expDurs  == IF leaving THEN {0} ELSE { DurOf(Adv(a, e)) : a \in r.left }
         emitOK   == IF obs = None THEN \E x \in cands : ~mustEmit(x) ELSE mayEmit(e)
-        levelOK  == obs # None => obs[1] = lv
+        levelOK  == obs # None => obs[1] \in lvs
         carryOK  == obs # None => (e \in cands /\ obs[3] \in expDurs)
         maybeTrig == obs = None /\ withheld /\ changed
         left2    == IF leaving
@@ -248,16 +331,46 @@ RefJudge(c, r, pts, tmx, obs) ==
                                      THEN { a \in r.left : DurOf(Adv(a, e)) = obs[3] }
                                      ELSE r.left
                          IN  { Adv(a, tmx) : a \in keep }
+        \* count() bounds: every point of the ID may evaluate any of its expressions once,
+        \* a point at the gate must evaluate the current level's reset
+        nGate    == Cardinality({ i \in DOMAIN pts : Gate(c, r.lvl, pts[i]) })
+        rhi2     == [k \in 1..3 |-> IF Stateful(c, k) THEN Min2(r.rhi[k] + Len(pts), c.rk[k]) ELSE 0]
+        rlo2     == [k \in 1..3 |-> IF Stateful(c, k) /\ k = r.lvl THEN Min2(r.rlo[k] + nGate, c.rk[k]) ELSE r.rlo[k]]
     IN  [st  |-> [lvl |-> lv, win |-> win2,
                   left    |-> left2,
                   lastOld |-> IF obs # None THEN CapAge(tmx - e) ELSE Adv(r.lastOld, tmx),
                   lastNew |-> IF obs # None THEN CapAge(tmx - e)
-                              ELSE IF maybeTrig THEN 0 ELSE Adv(r.lastNew, tmx)],
+                              ELSE IF maybeTrig THEN 0 ELSE Adv(r.lastNew, tmx),
+                  rlo |-> rlo2, rhi |-> rhi2],
          chk |-> [level |-> levelOK, emit |-> emitOK, carries |-> carryOK,
                   \* exactly one output allowed?
-                  det |-> (\A x \in cands : mayEmit(x) = mustEmit(x))]]
+                  det |-> (Cardinality(lvs) = 1 /\ \A x \in cands : mayEmit(x) = mustEmit(x)),
+                  \* a return to OK that has to be reported is not: the stream form's known
+                  \* deviation when the code-shaped flapping flag is set (decided by the caller)
+                  kf |-> FALSE],
+         recovery |-> recovery]
 
-ChkInit == [level |-> TRUE, emit |-> TRUE, carries |-> TRUE, det |-> TRUE]
+ChkInit == [level |-> TRUE, emit |-> TRUE, carries |-> TRUE, det |-> TRUE, kf |-> FALSE]
+
+(* KNOWN FINDING stream-flapping-recovery-withheld: alertState.Point holds  *)
+(* back everything while flapping, also the return to OK, and never makes up *)
+(* for it.  Exactly that class: stream form, flapping configured, the        *)
+(* code-shaped flapping flag set at this step, a due recovery, no event.     *)
+StreamFlappingRecoveryWithheld(c, implSt, obs, recoveryDue) ==
+    ~c.batch /\ c.flap /\ implSt.flapping /\ obs = None /\ recoveryDue
+
+(***************************************************************************)
+(* Delivery of an event: handleEvent collects it for the anonymous topic of  *)
+(* the inline handlers (a bounded queue per handler: a full queue is an      *)
+(* error for the collector, the event is dropped for that handler) and,      *)
+(* independently, for the named topic.                                       *)
+(***************************************************************************)
+NoDl == [anon |-> "none", named |-> FALSE]
+Deliver(c, q, emitted) ==
+    IF ~emitted THEN [aq |-> q, dl |-> NoDl]
+    ELSE IF ~c.inline THEN [aq |-> q, dl |-> [anon |-> "none", named |-> TRUE]]
+    ELSE IF q < QCap THEN [aq |-> q + 1, dl |-> [anon |-> "queued", named |-> TRUE]]
+    ELSE [aq |-> q, dl |-> [anon |-> "dropped", named |-> ~Is("stop-at-first-collect-error")]]
 
 (***************************************************************************)
 (* The lockstep specification.                                               *)
@@ -268,38 +381,60 @@ Init ==
     /\ rf = RefInit(cfg)
     /\ out = None
     /\ chk = ChkInit
+    /\ aq = 0
+    /\ dl = NoDl
 
-Step(pts, tmx) ==
-    LET i == IF cfg.batch THEN ImplBatch(cfg, im, pts, tmx) ELSE ImplStream(cfg, im, pts[1])
-        j == RefJudge(cfg, rf, pts, tmx, i.out)
+Step(i, pts, tmx) ==
+    LET j == RefJudge(cfg, rf, pts, tmx, i.out)
+        d == Deliver(cfg, aq, i.out # None)
     IN  /\ im' = i.st
         /\ out' = i.out
         /\ rf' = j.st
-        /\ chk' = j.chk
+        /\ chk' = [j.chk EXCEPT !.kf = StreamFlappingRecoveryWithheld(cfg, i.st, i.out, j.recovery)]
+        /\ aq' = d.aq /\ dl' = d.dl
         /\ UNCHANGED cfg
 
+(* alertState.Point *)
 Point(p, dt) ==
     /\ ~cfg.batch
-    /\ Step(<<[c |-> p.c, r |-> p.r, off |-> dt]>>, dt)
+    /\ LET pt == [c |-> p.c, r |-> p.r, off |-> dt]
+       IN  Step(ImplStream(cfg, im, pt), <<pt>>, dt)
 
-(* offsets: first point at dt, the following ones a gap later, tmax a gap     *)
-(* after the last point.                                                     *)
+(* alertState.BufferedBatch.  Offsets: first point at dt, the following     *)
+(* ones a gap later, tmax a gap after the last point.                        *)
 Batch(ps, dt, gaps, g) ==
     /\ cfg.batch
     /\ LET n   == Len(ps)
            off[i \in 1..n] == IF i = 1 THEN dt ELSE off[i - 1] + gaps[i]
            pts == [i \in 1..n |-> [c |-> ps[i].c, r |-> ps[i].r, off |-> off[i]]]
-       IN  Step(pts, off[n] + g)
+           tmx == off[n] + g
+       IN  Step(ImplBatch(cfg, im, pts, tmx), pts, tmx)
 
 (* The documented machine knows nothing of task restarts: Ref continues.      *)
 Restart ==
     /\ CanRestart(cfg)
     /\ im' = ImplRestore(cfg, im)
-    /\ out' = None /\ chk' = ChkInit
-    /\ UNCHANGED <<cfg, rf>>
+    /\ out' = None /\ chk' = ChkInit /\ dl' = NoDl
+    /\ UNCHANGED <<cfg, rf, aq>>
 
 (* an empty batch is ignored entirely *)
 EmptyBatch == cfg.batch /\ UNCHANGED vars
+
+(* ANOTHER alert ID of the same node consults its reset condition of level   *)
+(* l.  Every alertState has its own copies of the expressions, so nothing of *)
+(* this ID changes - unless the state of the expression is shared.           *)
+Other(l) ==
+    /\ Stateful(cfg, l)
+    /\ im' = IF Is("shared-reset-state")
+             THEN [im EXCEPT !.rcnt[l] = Min2(@ + 1, cfg.rk[l])]
+             ELSE im
+    /\ UNCHANGED <<cfg, rf, out, chk, aq, dl>>
+
+(* an inline handler finishes an event (a slow or stuck one rarely/never does) *)
+AnonHandlerStep ==
+    /\ cfg.inline /\ aq > 0
+    /\ aq' = aq - 1
+    /\ UNCHANGED <<cfg, im, rf, out, chk, dl>>
 
 Next ==
     \/ \E p \in Classes(cfg), dt \in 0..MaxDt : Point(p, dt)
@@ -308,6 +443,8 @@ Next ==
             Batch(ps, dt, gaps, g)
     \/ EmptyBatch
     \/ Restart
+    \/ \E l \in 1..3 : Other(l)
+    \/ AnonHandlerStep
 
 Spec == Init /\ [][Next]_vars
 
@@ -319,29 +456,39 @@ TypeOK ==
     /\ im.idx \in 1..cfg.H
     /\ \A i \in 1..cfg.H : im.hist[i] \in 0..3
     /\ im.first \in -1..MaxAge /\ im.last \in -1..MaxAge
+    /\ \A k \in 1..3 : im.rcnt[k] \in 0..cfg.rk[k] /\ rf.rlo[k] <= rf.rhi[k] /\ rf.rhi[k] \in 0..cfg.rk[k]
     /\ rf.lvl \in 0..3
     /\ out = None \/ (out[1] \in 0..3 /\ out[2] \in 0..MaxAge /\ out[3] \in -1..MaxAge)
+    /\ aq \in 0..QCap
 
-(* The level the code keeps for the ID is the documented one, and every     *)
-(* event carries it.                                                         *)
+(* The level the code keeps for the ID is the documented one - a function   *)
+(* of the ID's own points only - and every event carries it.                 *)
 LevelRule == ImplLevel(im) = rf.lvl /\ chk.level
-(* An event is emitted exactly when the documented machine says so.          *)
-EmitIff == chk.emit
+(* An event is emitted exactly when the documented machine says so (but for  *)
+(* the named known finding).                                                 *)
+EmitIff == chk.emit \/ chk.kf
+EmitIffStrict == chk.emit
 (* Every event carries the trigger time and duration = time since the ID     *)
 (* last left OK.                                                             *)
 EventCarries == chk.carries
+(* Every emitted event reaches the handlers of the named topic, whatever     *)
+(* happens to the inline handlers' queue.                                    *)
+NamedDelivery == out # None => dl.named
 (* Impl => Ref for non-flapping configurations: Ref allows exactly one       *)
 (* output there and Impl produces it.                                        *)
 ImplRefinesRef ==
-    ~cfg.flap => (chk.det /\ chk.level /\ chk.emit /\ chk.carries /\ ImplLevel(im) = rf.lvl /\ Cardinality(rf.left) = 1)
+    (~cfg.flap /\ ~AnyStateful(cfg)) =>
+        (chk.det /\ chk.level /\ chk.emit /\ chk.carries /\ ImplLevel(im) = rf.lvl /\ Cardinality(rf.left) = 1)
+(* the code's count() of a reset expression stays within the documented bounds *)
+CountWithinBounds == \A k \in 1..3 : Stateful(cfg, k) => (rf.rlo[k] <= im.rcnt[k] /\ im.rcnt[k] <= rf.rhi[k])
 
-(* Weaker forms used where a deviation is under triage.                      *)
-EventCarriesNoFlap == ~cfg.flap => chk.carries
+ConfigsOK == \A c \in Configs : ConfigOK(c)
 
-(* The two formulations of the level rule agree on every input.              *)
+(* The two formulations of the level rule agree on every input (stateless resets). *)
 LevelRuleStatic ==
-    \A c \in Configs : \A cur \in { l \in 0..3 : l = 0 \/ c.has[l] } : \A p \in Classes(c) :
-        CodeLevel(c, cur, p) = DocLevel(c, cur, p)
+    \A c \in { x \in Configs : ~AnyStateful(x) } : \A cur \in { l \in 0..3 : l = 0 \/ c.has[l] } : \A p \in Classes(c) :
+        /\ CodeLevel(c, cur, p) = DocLevel(c, cur, p)
+        /\ DocLevelSet(c, cur, p, ZeroCnt, ZeroCnt) = { DocLevel(c, cur, p) }
 
 (* The documented worked example (pipeline/alert.go): thresholds            *)
 (* info>60 reset<50, warn>70 reset<60, crit>80 reset<70 on                   *)
